@@ -21,7 +21,7 @@ ASSUMPTIONS = ['axis arguments are in-range, non-negative, sorted and match the 
 REQUIRED_REACH = ['_tt_base:TT.norm', '_tt_base:TT.sum', '_extras:dot', '_extras:bilinear_form', '_aux_ops:bilinear_form_aux', '_tt_base:TT.reduce_dims']
 REQUIRED_COUNTS = {'history_value_checks': 200, 'norm/tensor/order1/plain': 1, 'norm/tensor/order>1/plain': 1, 'norm/operator/order1/plain': 1, 'norm/operator/order>1/plain': 1,
                    'norm/tensor/order1/tracked': 1, 'norm/tensor/order>1/tracked': 1, 'norm/operator/order1/tracked': 1, 'norm/operator/order>1/tracked': 1,
-                   'sum/tensor/all': 1, 'sum/tensor/partial': 1, 'sum/operator/all': 1, 'sum/operator/partial': 1, 'dot/full': 1, 'dot/partial': 1, 'norm/cancelling-terms': 10, 'sum/list-not-ascending': 1, 'dot/axis-not-ascending': 1,
+                   'sum/tensor/all': 1, 'sum/tensor/partial': 1, 'sum/operator/all': 1, 'sum/operator/partial': 1, 'dot/full': 1, 'dot/partial': 1, 'norm/cancelling-terms': 10, 'mode>64': 8, 'sum/list-not-ascending': 1, 'dot/axis-not-ascending': 1,
                    'bilinear': 1, 'exact_comparisons': 50}
 LINE_FUNCS = ['TT.norm', 'TT.sum', 'dot', 'bilinear_form_aux']
 DT = ['f64', 'f64', 'f32', 'c128']
@@ -85,6 +85,25 @@ def cases(tier, seed):
         cs.append({'gen': 'bilinear', 'M': gens.modes(rng, d, (1, 2, 3, 4), distinct=False), 'N': gens.modes(rng, d, (1, 2, 3, 5), distinct=False),
                    'Rx': gens.rank_profile(rng, d, 'rand', 3), 'RA': gens.rank_profile(rng, d, 'rand', 3), 'Ry': gens.rank_profile(rng, d, 'rand', 3),
                    'dtype': ['f64', 'c128', 'f32'][i % 3], 'vals': 'int' if i % 4 else 'gauss'})
+    # one long mode (65 .. 1030, not a multiple of a power of two): size-dependent contraction strategies must not change the numbers
+    for i in range(24 if tier == 'quick' else 200):
+        d = rng.choice([1, 2, 3])
+        N = [rng.choice((1, 2, 3)) for _ in range(d)]
+        N[rng.randrange(d)] = rng.choice((65, 70, 100, 129, 257, 1030))
+        R = gens.rank_profile(rng, d, 'rand', 3)
+        dtp = ['f64', 'c128', 'f32'][i % 3]
+        kind = i % 4
+        if kind == 0:
+            sub = None if i % 8 == 0 else sorted(rng.sample(range(d), rng.randint(1, d)))
+            cs.append({'gen': 'dot', 'N': N, 'Ra': R, 'axes': sub, 'form': 'list', 'Rb': gens.rank_profile(rng, d if sub is None else len(sub), 'rand', 3), 'dtype': dtp if dtp != 'f32' else 'f64', 'vals': 'int', 'long': True})
+        elif kind == 1:
+            sub = None if i % 8 == 1 else sorted(rng.sample(range(d), rng.randint(1, d)))
+            cs.append({'gen': 'sum', 'N': N, 'M': None, 'R': R, 'axes': sub, 'form': 'list', 'dtype': dtp, 'vals': 'int', 'long': True})
+        elif kind == 2:
+            cs.append({'gen': 'norm', 'N': N, 'M': None, 'R': R, 'tracked': i % 8 == 2, 'squared': i % 16 < 8, 'dtype': dtp, 'vals': 'gauss', 'track_idx': rng.randrange(d), 'long': True})
+        else:
+            cs.append({'gen': 'bilinear', 'M': N, 'N': [rng.choice((1, 2, 3)) for _ in range(d)], 'Rx': R, 'RA': gens.rank_profile(rng, d, 'rand', 2), 'Ry': gens.rank_profile(rng, d, 'rand', 2),
+                       'dtype': dtp, 'vals': 'int' if i % 8 == 3 else 'gauss', 'long': True})
     from .. import hist
     cs += hist.cases(PROP, tier, seed)
     return cs
@@ -105,6 +124,8 @@ def _mag(x, case, ctx, salt=0):
 
 
 def run_case(case, ctx):
+    if case.get('long'):
+        ctx.count('mode>64')
     g = gens.tgen(case['seed'])
     globals()['run_' + case['gen']](case, ctx, g)
 
